@@ -36,6 +36,8 @@ class MultiVector:
         :param items: keyword arguments can be used to initiate multivectors as well, e.g.
             :code:`MultiVector(alg, e12=1)`. Mutually exclusive with `values` and `keys`.
         """
+        if items and (keys is not None or values is not None):
+            raise ValueError("Keyword blades cannot be combined with `values` or `keys`.")
         if items and keys is None and values is None:
             for key in list(items.keys()):
                 if key not in algebra.canon2bin:
